@@ -332,4 +332,3 @@ func rePrefix(seq [][]string, prefix string) [][]string {
 	return out
 }
 
-func runRedisConc(c *corr.Ctx) error { return fmt.Errorf("family redisconc: not built yet") }
